@@ -2,9 +2,10 @@
    Object: the loader models (Meta/Meta.v), tied to the Go code by the correspondence stream
    meta_load; specification: byte-level builders of well-formed files (validated on every run
    against the stdlib / x-image DecodeConfig by the harness).  WebP is proved here for all three
-   bitstream kinds; PNG and JPEG round trips: see DESIGN.md (status). *)
+   bitstream kinds and PNG for every IHDR, any ancillary chunks and any continuation; the JPEG round
+   trip: see DESIGN.md (status). *)
 From Coq Require Import List NArith. From Coq Require Import Strings.Byte.
-From PrismV Require Import IO.IO IO.IOTheory IO.Parse IO.IOTheory2 Meta.Meta Meta.MetaProofs Meta.WebpProofs.
+From PrismV Require Import IO.IO IO.IOTheory IO.Parse IO.IOTheory2 Meta.Meta Meta.MetaProofs Meta.WebpProofs Meta.PngProofs IO.Encode.
 Import ListNotations.
 
 Theorem C05_webp_lossy : forall inflate total len t0 t1 t2 w sx h sy rest fuel,
@@ -27,6 +28,18 @@ Theorem C05_webp_extended : forall inflate total flags r1 r2 r3 w1 h1 rest fuel,
   = (Ok {| md_format := WEBP; md_w := w1 + 1; md_h := h1 + 1; md_bits := 8; md_icc := IccNone |}, rest).
 Proof. exact webp_vp8x_meta_no_profile. Qed.
 Print Assumptions C05_webp_extended.
+
+(* PNG: any width/height below 2^32, any bit-depth byte, IHDR of any length >= 13, any list of ancillary
+   chunks of any types (other than IHDR/iCCP/IDAT/IEND) and sizes, any CRC bytes, then the first IDAT
+   or IEND header: the metadata is what IHDR says and the loader stops exactly after that header *)
+Theorem C05_png : forall inflate w h depth rest crc ancs endlen endty body fuel,
+  (w < 4294967296)%N -> (h < 4294967296)%N -> length crc = 4 -> (lenN (ihdr_data w h depth rest) < 4294967296)%N ->
+  Forall anc_ok ancs -> (endlen < 4294967296)%N -> (endty = ty_IDAT \/ endty = ty_IEND) ->
+  length ancs + 2 <= fuel -> length rest <= fuel -> Forall (fun a => length (a_data a) <= fuel) ancs ->
+  run_pure inflate (png_prog fuel) (png_file w h depth rest crc ancs endlen endty body)
+  = (Ok {| md_format := PNG; md_w := w; md_h := h; md_bits := bN depth; md_icc := IccNone |}, body).
+Proof. exact png_meta. Qed.
+Print Assumptions C05_png.
 
 (* the same through Load under every delivery schedule, and through the auto-detecting loader *)
 Theorem C05_through_load_any_schedule : forall inflate (p : nat -> prog (res mdata)) fuel r,
